@@ -312,7 +312,7 @@ theorem filterMap_lookup (fields : List (String × Ty)) (kvs : List (Key × Val)
     (kvs.filterMap fun (kv : Key × Val) =>
       match kv.1 with
       | .str s => (fields.lookup s).map fun t => (s, t, kv.2)
-      | .int _ => none).lookup f = some (ft, sub) := by
+      | _ => none).lookup f = some (ft, sub) := by
   induction kvs with
   | nil => simp [lookupKey] at hk
   | cons kv rest ih =>
@@ -327,6 +327,7 @@ theorem filterMap_lookup (fields : List (String × Ty)) (kvs : List (Key × Val)
       simp only [List.filterMap_cons]
       cases k with
       | int i => simpa using ih hk
+      | other n => simpa using ih hk
       | str s =>
         simp only
         cases hl : fields.lookup s with
